@@ -78,7 +78,118 @@ def _arm_for(lad, klass: str):
     return None
 
 
+def _delta_tabulate(ctx, m: core.Mod, cls: str, addq: str, subq: str, units: list[str]) -> bool | None:
+    """DELTA.tabulated: the `+ delta` / `- delta` helpers run by the checker's interpreter with the three kinds of operand - an Interval stub
+    and a Duration stub whose eight components, native days / seconds and recorded constructor arguments are all distinct numbers, a
+    native timedelta - on an instance stub whose add() / subtract() record what they are given.  Expected: the `+` helper calls add(),
+    the `-` helper subtract(), both with the same amounts: the operand's own components for an Interval (its constructor arguments are
+    the elapsed length, not the calendar components) and for a Duration (DateTime: its components or the arguments it was built from),
+    the elapsed length for a native timedelta (DateTime: in clock units only; Date: its days)."""
+    import datetime as _dt
+    from ..rules import minieval
+    from ..rules.minieval import ClassStub, Obj, Stub
+    vals = dict(zip(COMP, (1, 2, 3, 4, 5, 6, 7, 8)))
+    comp = {u: vals[u] for u in units}
+    given = {u: 10 + vals[u] for u in units}                  # what the Duration was built from (Duration._signature)
+    elapsed = {"years": 0, "months": 0, "weeks": 0, "days": 99, "hours": 0, "minutes": 0, "seconds": 98, "microseconds": 97}
+    meths = m.methods(cls, inherited=True) if cls == "Date" else {**pmod("date").methods("Date", inherited=True), **m.methods(cls, inherited=True)}
+    props = {k for k, f in meths.items() if any(core.dotted(d) == "property" for d in f.decorator_list)}
+    funcs = {st.name: st for st in m.top() if isinstance(st, ast.FunctionDef)}
+    native = _dt.timedelta(days=2, seconds=5, microseconds=7)
+
+    def private(kind, acc, k):
+        """the private fields Duration.__new__ leaves: for a Duration its own breakdown; for an Interval that of the elapsed length it hands to
+        Duration.__new__ (its calendar components live in its PreciseDiff and are only reached through the public properties)"""
+        if kind == "Interval":
+            return {"_years": 0, "_months": 0, "_weeks": 99 * k // 7 if k > 0 else -(99 * -k // 7), "_remaining_days": (99 % 7) * k, "_days": 99 * k, "_seconds": 98 * k, "_microseconds": 97 * k}
+        return {"_years": acc["years"], "_months": acc["months"], "_weeks": acc["weeks"], "_remaining_days": acc["remaining_days"],
+                "_days": acc["weeks"] * 7 + acc["remaining_days"], "_seconds": acc["hours"] * 3600 + acc["minutes"] * 60 + acc["remaining_seconds"], "_microseconds": acc["microseconds"]}
+
+    def operand(kind, k=1, rebuilt=False):
+        if kind == "timedelta":
+            return native * k
+        acc = {COMP[u]: v * k for u, v in vals.items()}
+        if kind == "Duration" and rebuilt:
+            # a Duration that went through __neg__ / __mul__ was rebuilt from its stored components: that is what it was "built from"
+            sig = {"years": acc["years"], "months": acc["months"], "weeks": acc["weeks"], "days": acc["remaining_days"], "hours": 0, "minutes": 0,
+                   "seconds": acc["hours"] * 3600 + acc["minutes"] * 60 + acc["remaining_seconds"], "microseconds": acc["microseconds"]}
+            sig = {u: v for u, v in sig.items() if u in units}
+        elif kind == "Duration":
+            sig = {u: v * k for u, v in given.items()}
+        else:
+            sig = {u: v * k for u, v in elapsed.items() if u in units}
+        # (negation / scaling by an integer give an operand of the same kind with every amount scaled: Duration.__neg__ / __mul__, C10)
+        return Stub(_kind=kind, _types=(_dt.timedelta,), _truth=True, days=99 * k, seconds=98 * k, total_seconds=lambda: (99 * 86400 + 98.000097) * k, _total=(99 * 86400 + 98.000097) * k,
+                    _signature=sig, **acc, **private(kind, acc, k), _neg=lambda: operand(kind, -k, True),
+                    _mul=lambda j: operand(kind, k * j, True) if isinstance(j, int) else (_ for _ in ()).throw(core.Unsupported("operand scaled by a non-integer")))
+    glob = {**minieval.module_consts(m), "timedelta": _dt.timedelta, "datetime": Stub(timedelta=_dt.timedelta, datetime=_dt.datetime, date=_dt.date), "date": _dt.date,
+            "TypeError": TypeError, "ValueError": ValueError,
+            "pendulum": Stub(Interval=ClassStub(_new=None, _isa=lambda v: getattr(v, "_kind", None) == "Interval"),
+                             Duration=ClassStub(_new=None, _isa=lambda v: getattr(v, "_kind", None) in ("Interval", "Duration")))}
+    glob["Interval"], glob["Duration"] = glob["pendulum"].Interval, glob["pendulum"].Duration
+    bad, n = [], 0
+
+    def norm(kw):
+        """amounts as add() / subtract() take them: weeks are seven days, the clock units one fixed length"""
+        if not all(isinstance(v, (int, float)) for v in kw.values()) or set(kw) - set(COMP):
+            return ("?", sorted(kw.items(), key=str))
+        return (kw.get("years", 0), kw.get("months", 0), kw.get("weeks", 0) * 7 + kw.get("days", 0),
+                ((kw.get("hours", 0) * 60 + kw.get("minutes", 0)) * 60 + kw.get("seconds", 0)) * 10**6 + kw.get("microseconds", 0))
+    try:
+        for kind in ("Interval", "Duration", "timedelta", "timedelta (negative, with a part of a day)"):
+            if kind.startswith("timedelta"):
+                # (standard library: date + timedelta shifts by timedelta.days, which rounds toward minus infinity)
+                native = _dt.timedelta(days=2, seconds=5, microseconds=7) if kind == "timedelta" else _dt.timedelta(days=-2, seconds=5)
+            seen = {}
+            for q, verb in ((addq, "add"), (subq, "subtract")):
+                calls = []
+                me = Obj(_methods=meths, _props=props, _natives={}, _ctor=ClassStub(_new=None, _isa=lambda v: False, _methods=lambda: meths),
+                         add=lambda *a, **k: (calls.append(("add", a, k)), Stub(_result=len(calls)))[1],
+                         subtract=lambda *a, **k: (calls.append(("subtract", a, k)), Stub(_result=len(calls)))[1])
+                got = minieval.call(meths[q], [me, native if kind.startswith("timedelta") else operand(kind)], {}, {**funcs, "$globals": dict(glob)})
+                n += 1
+                label = f"{cls}.{q}(<{kind}>)"
+                if len(calls) != 1 or getattr(got, "_result", None) != 1 or calls[0][1]:
+                    raise core.Unsupported(f"{label} does not return one add() / subtract() call with keyword amounts")
+                name, _, kw = calls[0]
+                kw = {k: v for k, v in kw.items() if v != 0}
+                if name != verb and all(isinstance(v, (int, float)) for v in kw.values()):
+                    # add(-x) for subtract(x) (or the reverse): the same shift - compared in the verb of the helper
+                    name, kw = verb, {k: -v for k, v in kw.items()}
+                seen[verb] = kw
+                if name != verb:
+                    bad.append(f"{label} goes through {name}() instead of {verb}()")
+                    continue
+                if kind.startswith("timedelta"):
+                    if cls == "Date":
+                        ok = _dt.timedelta(**{k: v for k, v in kw.items() if k in ("weeks", "days")}) == _dt.timedelta(days=native.days) and set(kw) <= {"weeks", "days"}
+                        want = f"days={native.days}"
+                    else:
+                        ok = set(kw) <= {"hours", "minutes", "seconds", "microseconds"} and _dt.timedelta(**kw) == native
+                        want = f"its elapsed length in clock units (seconds={native.total_seconds()})"
+                elif kind == "Interval":
+                    ok, want = norm(kw) == norm(comp), f"its components {comp}"
+                else:
+                    ok = norm(kw) == norm(comp) or (cls == "DateTime" and norm(kw) == norm(given))
+                    want = f"its components {comp}" + (f" or the arguments it was built from {given}" if cls == "DateTime" else "")
+                if not ok:
+                    bad.append(f"{label} passes {kw}; a {kind} operand stands for {want}")
+            if len(seen) == 2 and norm(seen["add"]) != norm(seen["subtract"]):
+                bad.append(f"for a {kind} operand `+` passes add({seen['add']}) but `-` passes subtract({seen['subtract']})")
+    except (core.Unsupported, KeyError, TypeError, AttributeError, ValueError, IndexError, RecursionError, minieval.Raised) as e:
+        ctx.unverified("DELTA.tabulated", f"{cls}.{subq}", f"outside the checker's interpreter: {type(e).__name__}: {str(e)[:160]}", m.loc(m.func(f"{cls}.{subq}")))
+        return None
+    ctx.ob("DELTA.tabulated", f"{cls}.{addq} / {subq}", not bad, f"{n} (helper, operand kind) calls: " + (f"wrong: {bad[:3]}" if bad else
+           "add() / subtract() receive the operand's own components (Interval, Duration) or its elapsed length (native timedelta), the same for + and -"),
+           m.loc(m.func(f"{cls}.{subq}")))
+    if not bad:
+        ctx.established(("SIBLING",), f"{cls}.{addq}", "DELTA.tabulated")
+        ctx.established(("SIBLING",), f"{cls}.{subq}", "DELTA.tabulated")
+    return not bad
+
+
 def _siblings(ctx, m: core.Mod, cls: str, addq: str, subq: str, units: list[str]) -> None:
+    _delta_tabulate(ctx, m, cls, addq, subq, units)
     try:
         la, ls = ladder(m, f"{cls}.{addq}"), ladder(m, f"{cls}.{subq}")
     except core.Unsupported as e:
@@ -189,6 +300,24 @@ def _init_complete(ctx) -> None:
                 for e in n.targets[0].elts:
                     if isinstance(e, ast.Attribute) and nun(e.value) == "self":
                         assigned.add(e.attr)
+        # ... and what the private methods the constructor calls on the new instance assign (self._helper(...), transitively)
+        allm = home.methods(cls, inherited=True)
+        todo, seen_m = [new], set()
+        while todo:
+            f_ = todo.pop()
+            for c in core.calls(f_):
+                if isinstance(c.func, ast.Attribute) and nun(c.func.value) == "self" and c.func.attr in allm and c.func.attr not in seen_m:
+                    seen_m.add(c.func.attr)
+                    h_ = allm[c.func.attr]
+                    me = h_.args.args[0].arg if h_.args.args else "self"
+                    for n in core.walk_fn(h_):
+                        tg = n.targets if isinstance(n, ast.Assign) else [n.target] if isinstance(n, (ast.AnnAssign, ast.AugAssign)) else []
+                        for t in tg:
+                            for e in (t.elts if isinstance(t, ast.Tuple) else [t]):
+                                if isinstance(e, ast.Attribute) and nun(e.value) == me:
+                                    assigned.add(e.attr)
+                    if me == "self":
+                        todo.append(h_)
         class_level = {t.id for st in home.cls(cls).body if isinstance(st, (ast.Assign, ast.AnnAssign))
                        for t in ([st.target] if isinstance(st, ast.AnnAssign) else st.targets) if isinstance(t, ast.Name)}
         for a in sorted(private):
@@ -223,6 +352,8 @@ def run(ctx) -> None:
         recon.check_site(ctx, s)
     ctx.step(_siblings, ctx, dtm, "DateTime", "_add_timedelta_", "_subtract_timedelta", AD.ADD_PARAMS)
     ctx.step(_siblings, ctx, dm, "Date", "_add_timedelta", "_subtract_timedelta", ["years", "months", "weeks", "days"])
+    from . import C10
+    ctx.step(C10._arith_tabulate, ctx)       # `- Duration` goes through Duration.__neg__: decided on values (every stored component negated) before the way it is written
     ctx.step(_neg_and_signature, ctx)
     ctx.step(_init_complete, ctx)
     ctx.expect_min("ORDER.clamp", 6)
